@@ -373,6 +373,10 @@ def gen_cases(rng, tier):
                 # an error response (401, 420, 438 ...) carries the transaction id too and completes the request
                 cases.append(["c%d" % k, "c20", "cli", "0", str(t), "-", "-", "err"]); k += 1
     cases.append(["c%d" % k, "c20", "cli", "0", "-", "700"]); k += 1
+    # every other way a call can end: the transport refuses a (re)transmission, the caller gives up waiting (drops the call)
+    for resp in ("-", "100", "1700", "40000"):
+        for mode in ("senderr:0", "senderr:1", "senderr:3", "abandon:1", "abandon:600", "abandon:3000", "abandon:62000"):
+            cases.append(["c%d" % k, "c20", "cli", "0", resp, "-", mode]); k += 1
     return cases
 
 
@@ -455,7 +459,8 @@ def oracle(case, impl):
         sends = [int(x) for x in m.group(1).split(",") if x]
         result, done = m.group(2), int(m.group(3))
         resp = int(case[4]) if case[4] != "-" else None
-        if case[3] == "0":
+        mode = case[6] if len(case) > 6 else "-"
+        if case[3] == "0" and mode in ("-", ""):
             end = resp if resp is not None and resp < GIVE_UP else GIVE_UP
             want = [t for t in SCHEDULE if t < end or (t == end and resp is None)]
             if resp is not None and resp in SCHEDULE:
@@ -509,6 +514,8 @@ def accepts(case, impl, model):
         return impl == model       # the driver computes real HMAC-SHA1/SHA256 and the model's CRC-32: byte-exact comparison
     if kind == "demux":
         return impl.split()[0] == model.split()[0]
+    if kind == "cli" and len(case) > 6 and case[6] not in ("-", ""):
+        return True        # send errors / abandoned calls: the table is what is looked at (oracle)
     if kind == "cli":
         mi = re.match(r"sends=(\S*) result=(\w+)(?::\w+)?@(\d+)", impl)
         mm = re.match(r"sends=(\S*) result=(\w+)@(\d+)", model)
